@@ -382,6 +382,7 @@ func C13(c *Ctx) *kf.Report {
 		}
 	}
 	c13Middleware(c, rep, sess)
+	c13Groups(c, rep)
 	rep.Coverage["traces_validated_against_impl"] = paths
 	rep.Coverage["evaluations"] = stepsCompared
 	rep.Coverage["distinct_nontrivial"] = len(nontrivial)
